@@ -24,6 +24,21 @@
        of the node Types/<class>/<id>, when present)
      close + open (types are not touched by close ; every reachable entity is loaded with the attributes of the object its
        `Type` link points to ; the new registry holds the types met while loading) *)
+(* SCOPE / CONVENTIONS (audit 2: C1, C2, A11)
+   * Driver convention for [RemoveWs]: the modelled call is `ws.remove_entity(ws.get_entity(u)[0])` -- the caller holds NO
+     reference to the removed entity, so after `del entity; collect()` its type object is dead and the final
+     remove_none_referents(self._types, "Types") deletes its node.  With the ordinary `x = ws.get_entity(u)[0];
+     ws.remove_entity(x)` the caller's reference keeps x (and the type object x holds) alive: the type node and registry
+     entry of THAT entity stay until the reference is dropped and something sweeps (ws.types, the next remove_entity); its
+     children's types are swept either way.  That held form is the same as [RemoveWs] followed later by a sweep from the
+     point of view of every theorem here (TInv, frames) except that the registry keeps one more live entry in between; it is
+     not a separate operation of the model and the typed driver (tools/props/wstypes.py) never holds a reference.
+   * [fents] is keyed by the entity identifier alone although the file has one flat container per kind (Groups / Objects /
+     Data): entity identifiers are unique across kinds in the typed histories (the X model keeps the kind in the key).
+   * [tattrs] = primitive type and name only; description, units, hidden, mapping, number_of_bins, color_map and value_map
+     of a type are outside the model (write_attributes / write_color_map / write_value_map rewrite them on the same node).
+   * close + open: the close-time walk save_entity(root, add_children=True) and the `self.groups` listing (which sweeps flat
+     nodes of dead groups) are not modelled here -- they never touch a type node or a Type link; the X model covers them. *)
 From GV Require Import Prelude.Base.
 
 Inductive tkind := TG | TO | TD.       (* "Group types" / "Object types" / "Data types" = kind of the entity *)
